@@ -334,6 +334,22 @@ pub assume_specification<'a, T, P>[ syn::punctuated::Punctuated::<T, P>::iter ](
 #[verifier::external_type_specification]
 #[verifier::external_body]
 #[verifier::reject_recursive_types(T)]
+pub struct ExPIterMut<'a, T: 'a>(syn::punctuated::IterMut<'a, T>);
+/// the borrows handed out are the elements, in order; what each holds when its borrow ends is the list's new element
+pub assume_specification<'a, T, P>[ syn::punctuated::Punctuated::<T, P>::iter_mut ](p: &'a mut syn::punctuated::Punctuated<T, P>) -> (r: syn::punctuated::IterMut<'a, T>)
+    ensures
+        r.obeys_prophetic_iter_laws(),
+        r.will_return_none(),
+        r.remaining().len() == pseq(old(p)).len(),
+        forall|i: int| #![auto] 0 <= i < pseq(old(p)).len() ==> *r.remaining()[i] == pseq(old(p))[i],
+        pseq(final(p)).len() == pseq(old(p)).len(),
+        forall|i: int| #![auto] 0 <= i < pseq(old(p)).len() ==> pseq(final(p))[i] == *final(r.remaining()[i]),
+        r.decrease() is Some,
+;
+pub assume_specification<'a, T>[ <syn::punctuated::IterMut<'a, T> as core::iter::Iterator>::next ](it: &mut syn::punctuated::IterMut<'a, T>) -> (r: Option<<syn::punctuated::IterMut<'a, T> as core::iter::Iterator>::Item>);
+#[verifier::external_type_specification]
+#[verifier::external_body]
+#[verifier::reject_recursive_types(T)]
 pub struct ExPIntoIter<T>(syn::punctuated::IntoIter<T>);
 pub assume_specification<T, P>[ <syn::punctuated::Punctuated<T, P> as core::iter::IntoIterator>::into_iter ](p: syn::punctuated::Punctuated<T, P>) -> (r: <syn::punctuated::Punctuated<T, P> as core::iter::IntoIterator>::IntoIter)
     ensures
